@@ -88,10 +88,80 @@ func isLenCall(v ssa.Value) (ssa.Value, bool) {
 		return nil, false
 	}
 	bi, ok := c.Call.Value.(*ssa.Builtin)
-	if !ok || (bi.Name() != "len" && bi.Name() != "cap") {
+	if !ok || bi.Name() != "len" {
 		return nil, false
 	}
 	return c.Call.Args[0], true
+}
+
+// countedMapRange: ph counts the iterations of `for k := range M` (0 on entry, +1 exactly once per iteration), base
+// was made with len(M) elements, the site lies inside the loop body and nothing in the body can add to M: the k-th
+// iteration sees ph == k < len(M) == len(base).
+func countedMapRange(ph *ssa.Phi, base ssa.Value, conds []core.CondEdge) bool {
+	hdr := ph.Block()
+	if len(ph.Edges) != 2 {
+		return false
+	}
+	entryOK, backOK := false, false
+	for i, e := range ph.Edges {
+		if hdr.Dominates(hdr.Preds[i]) {
+			if bo, ok := e.(*ssa.BinOp); ok && bo.Op == token.ADD && bo.X == ssa.Value(ph) {
+				if k, isC := core.ConstInt(bo.Y); isC && k == 1 {
+					backOK = true
+				}
+			}
+		} else if k, isC := core.ConstInt(e); isC && k == 0 {
+			entryOK = true
+		}
+	}
+	if !entryOK || !backOK {
+		return false
+	}
+	var next *ssa.Next
+	for _, in := range hdr.Instrs {
+		if n, ok := in.(*ssa.Next); ok && !n.IsString {
+			next = n
+		}
+	}
+	if next == nil {
+		return false
+	}
+	rng, ok := next.Iter.(*ssa.Range)
+	if !ok {
+		return false
+	}
+	if _, isMap := rng.X.Type().Underlying().(*types.Map); !isMap {
+		return false
+	}
+	mk, ok := derefLocal(base).(*ssa.MakeSlice)
+	if !ok || !isLenOf(mk.Len, rng.X) {
+		return false
+	}
+	inBody := false
+	for _, ce := range conds {
+		if ex, ok := ce.Cond.(*ssa.Extract); ok && ce.Taken && ex.Tuple == ssa.Value(next) && ex.Index == 0 {
+			inBody = true
+		}
+	}
+	if !inBody {
+		return false
+	}
+	for _, b := range hdr.Parent().Blocks {
+		if !hdr.Dominates(b) || !core.Reachable(b, nil)[hdr] {
+			continue
+		}
+		for _, in := range b.Instrs {
+			switch x := in.(type) {
+			case *ssa.MapUpdate, *ssa.Go, *ssa.Defer:
+				return false
+			case *ssa.Call:
+				if _, isB := x.Call.Value.(*ssa.Builtin); !isB {
+					return false
+				}
+			}
+		}
+	}
+	return true
 }
 
 // derefLocal: a load of a local variable that is stored exactly once yields the stored value.
@@ -623,6 +693,10 @@ func inRange(s varIdxSite, idx ssa.Value, ctx *idxCtx, depth int) (string, strin
 	if s.measured == "" && isLenOf(idx, base) {
 		atMost = true
 		why = "len of the same value"
+	}
+	if ph, ok := idx.(*ssa.Phi); ok && s.measured == "" && inLoopHeaderWithSelf(ph) && countedMapRange(ph, base, ctx.conds) {
+		lb = max(lb, 0)
+		setBelow("iteration counter of a range over a map, in a slice made with the length of that map")
 	}
 	if c, ok := idx.(*ssa.Call); ok {
 		if bi, ok := c.Call.Value.(*ssa.Builtin); ok && bi.Name() == "min" {
